@@ -303,6 +303,12 @@ def cubeShifts (c : Consts) (amount : Int) : List (Int × Int × Int) :=
 def repeatBoxCoord (c : Consts) (xs : List Vec) (b : Box) (amount : Int) : List Vec :=
   (cubeShifts c amount).flatMap fun s => xs.map fun x => x.add (vecMul (ofInts s.1 s.2.1 s.2.2) b)
 
+/-- `repeat_box_coord(coord, box, amount)` as a whole: a negative `amount` makes `(1 + 2·amount)³` negative and
+`np.tile` refuses it (`ValueError: negative dimensions are not allowed`). -/
+def repeatBoxCoordE (c : Consts) (xs : List Vec) (b : Box) (amount : Int) : Except Err (List Vec × List Nat) :=
+  if (1 + 2 * amount) ^ 3 < 0 then .error .valueError
+  else .ok (repeatBoxCoord c xs b amount, (cubeShifts c amount).flatMap fun _ => List.range xs.length)
+
 /-- `repeat_box_coord(...)[1] = np.tile(np.arange(n), (1 + 2 amount)^3)` -/
 def repeatIndices (c : Consts) (n : Nat) (amount : Int) : List Nat :=
   (cubeShifts c amount).flatMap fun _ => List.range n
@@ -458,7 +464,7 @@ gather column 0 and column 1 (an `IndexError` comes first), select the box, call
 def indexDisplacement (c : Consts) (a : Arr) (pairs : List (Int × Int)) (periodic : Bool) (box : BoxArg)
     (own : Option BoxArg := none) : Res Arr :=
   match a with
-  | .v _ => .unmodelled
+  | .v _ => .err .indexError      -- `coord[..., idx, :]` on a 1-dimensional array: "too many indices"
   | _ =>
     match gather a (pairs.map Prod.fst), gather a (pairs.map Prod.snd) with
     | some a1, some a2 =>
